@@ -142,6 +142,14 @@ func drawC04(t *rapid.T, maxBlock, maxTotal int) C04Case {
 	ln = min(ln, maxTotal)
 	c.Data = gen.DrawRecipe(t, 1, "data")
 	c.Data.Len = max(1, ln)
+	// one case in three: data the chain's first transform applies to, often of two natures (mixed), so that the
+	// blocks of a batch differ in what the detectors decide
+	if names := chainNames(c.Cfg.Transform); len(names) > 0 {
+		if aff, ok := c13Affinity[names[0]]; ok && rapid.IntRange(0, 2).Draw(t, "affine") == 0 {
+			c.Data.Kind = rapid.SampledFrom(aff).Draw(t, "affkind")
+			gen.FixEdge(t, &c.Data, "data")
+		}
+	}
 	c.Cfg.Hint, c.Cfg.HintClass = gen.DrawHint(t, c.Data.Len, c.Cfg.BlockSize, "hint")
 	nv := rapid.IntRange(3, 6).Draw(t, "nvariants")
 	for i := 0; i < nv; i++ {
